@@ -94,7 +94,7 @@ def cleanup():
 
 def plan(tier):
     if tier == "thorough":
-        return {"runs": 40000, "slice": 100, "budget_s": 2400,
+        return {"runs": 40000, "slice": 40, "budget_s": 2400,
                 "slice_timeout_s": 900}
     return {"runs": 640, "slice": 10, "budget_s": 150,
             "slice_timeout_s": 240}
